@@ -345,3 +345,21 @@ func hiddenOf(c *world.Cred, disclosed []int) (map[int]*big.Int, map[int]*big.In
 }
 
 var _ = refimpl.Norm
+
+func sortedStrKeys(m map[string]*big.Int) []string {
+	ks := make([]string, 0, len(m))
+	for k := range m {
+		ks = append(ks, k)
+	}
+	sort.Strings(ks)
+	return ks
+}
+
+func inInts(s []int, v int) bool {
+	for _, x := range s {
+		if x == v {
+			return true
+		}
+	}
+	return false
+}
